@@ -104,6 +104,13 @@ impl MT210 {
             }
         }
 
+        // Validate we have at least one notice sequence
+        if transactions.is_empty() {
+            return Err(ParseError::InvalidFormat {
+                message: "MT210: At least one sequence with field 32B is required".to_string(),
+            });
+        }
+
         // Verify all content is consumed
         verify_parser_complete(&parser)?;
 
